@@ -119,6 +119,7 @@ structure StepOut where
   postOrder : List String
   fs : FS
   freshPts : AList String    -- payee templates of the model's own rebuild on `fs`
+  quiet : Bool := true       -- no buffer differs from its file after this step
 
 structure Sim where
   root : String
@@ -126,20 +127,39 @@ structure Sim where
   order0 : List String
   steps : List StepOut
 
-def simulate (cfg : Cfg) (fs0 : FS) (ups : List (String × Contrib)) : Sim :=
+/-- `modes`: per update "both" (default: the edit reaches the workspace as didChange, then the
+    file is written and didSave repeats it), "change" (didChange only: the buffer now differs
+    from the file on disk) or "save" (the file is written with this text and didSave arrives). -/
+def simulate (cfg : Cfg) (fs0 : FS) (ups : List (String × Contrib)) (modes : List String := []) : Sim :=
   let w0 := init cfg fs0
   let (v0, w) := observe w0
-  let rec go (fs : FS) (w : WS) : List (String × Contrib) → List StepOut
+  let rec go (fs : FS) (w : WS) (dirty : List String) : List ((String × Contrib) × String) → List StepOut
     | [] => []
-    | (n, c) :: rest =>
-      let w1 := updateFile cfg fs w n c
-      let (mid, w1') := observe w1
-      let fs' := fs.set n c
-      let w2 := updateFile cfg fs' w1' n c
-      let (post, w2') := observe w2
-      { mid := mid, midOrder := w1.order, post := post, postOrder := w2.order, fs := fs',
-        freshPts := (init cfg fs').idx.pts } :: go fs' w2' rest
-  { root := w0.root, init := v0, order0 := w0.order, steps := go fs0 w ups }
+    | ((n, c), mode) :: rest =>
+      if mode == "change" then
+        let w1 := updateFile cfg fs w n c
+        let (mid, w1') := observe w1
+        let dirty' := if dirty.contains n then dirty else n :: dirty
+        { mid := mid, midOrder := w1.order, post := mid, postOrder := w1.order, fs := fs,
+          freshPts := (init cfg fs).idx.pts, quiet := false } :: go fs w1' dirty' rest
+      else if mode == "save" then
+        let fs' := fs.set n c
+        let w2 := updateFile cfg fs' w n c
+        let (post, w2') := observe w2
+        let dirty' := dirty.filter (· != n)
+        { mid := post, midOrder := w2.order, post := post, postOrder := w2.order, fs := fs',
+          freshPts := (init cfg fs').idx.pts, quiet := dirty'.isEmpty } :: go fs' w2' dirty' rest
+      else
+        let w1 := updateFile cfg fs w n c
+        let (mid, w1') := observe w1
+        let fs' := fs.set n c
+        let w2 := updateFile cfg fs' w1' n c
+        let (post, w2') := observe w2
+        let dirty' := dirty.filter (· != n)
+        { mid := mid, midOrder := w1.order, post := post, postOrder := w2.order, fs := fs',
+          freshPts := (init cfg fs').idx.pts, quiet := dirty'.isEmpty } :: go fs' w2' dirty' rest
+  { root := w0.root, init := v0, order0 := w0.order,
+    steps := go fs0 w [] (ups.zip (modes ++ List.replicate ups.length "both")) }
 
 def outView (v : View) : Json := viewJson v
 
@@ -152,7 +172,8 @@ def run (j : Json) : Json := Id.run do
   let implSteps := (jarr impl "steps").toList
   let fs0 : FS := files
   let upσ := ups
-  let sim := simulate cfg fs0 upσ
+  let modes := (jarr j "ups").toList.map fun u => if jhas u "mode" then jstr u "mode" else "both"
+  let sim := simulate cfg fs0 upσ modes
   let freshOf := fun (fs : FS) =>
     let wf := init cfg fs
     (outView (observe wf).1).setObjVal! "root" (Json.str wf.root)
@@ -183,9 +204,9 @@ def run (j : Json) : Json := Id.run do
   if !f0.isEmpty then why := why ++ [s!"after Initialize: view differs from the specification in {f0}"]
   if !why.isEmpty then unexplained := true
   -- variants of the model with the repairs switched on, to attribute failures
-  let simG := if cfg.fixG then sim else simulate { cfg with fixG := true } fs0 upσ
-  let simGT := simulate { cfg with fixG := true, fixT := true } fs0 upσ
-  let simT := if cfg.fixT then sim else simulate { cfg with fixT := true } fs0 upσ
+  let simG := if cfg.fixG then sim else simulate { cfg with fixG := true } fs0 upσ modes
+  let simGT := simulate { cfg with fixG := true, fixT := true } fs0 upσ modes
+  let simT := if cfg.fixT then sim else simulate { cfg with fixT := true } fs0 upσ modes
   let mut i := 0
   for is in implSteps do
     match sim.steps[i]? with
@@ -195,7 +216,10 @@ def run (j : Json) : Json := Id.run do
       if !fw.isEmpty then
         why := why ++ fw
         unexplained := true
-      if rootOf s.fs != root then
+      if !s.quiet then
+        -- a buffer differs from its file: "the final contents" are not defined until it is saved
+        pure ()
+      else if rootOf s.fs != root then
         if !known.contains "root-not-reselected" then known := known ++ ["root-not-reselected"]
         why := why ++ [s!"step {i}: a rebuild selects the root {rootOf s.fs}, the workspace keeps {root}"]
       else
@@ -236,6 +260,46 @@ def run (j : Json) : Json := Id.run do
     ("known", if unexplained then Json.arr #[] else jstrs known),
     ("why", String.intercalate "; " why)]
 
+/-- Op `c10.ws` (property C10 seen through the workspace): the member files and the file order
+    of the workspace's resolved include tree after Initialize and after every update.  The model
+    is `simulate` projected to members/orders; the oracle demands of the IMPLEMENTATION that
+    after every update the members are exactly the files reachable from the root in the current
+    contents (`membersOk` against the rebuild specification).  Steps after which a fresh
+    workspace would choose another root are outside this op (finding root-not-reselected of C12). -/
+def runMembers (j : Json) : Json := Id.run do
+  let cfg := parseCfg j
+  let files := parseFiles j "files"
+  let ups := parseFiles j "ups"
+  let impl := jget j "impl"
+  let implSteps := (jarr impl "steps").toList
+  let fs0 : FS := files
+  let modes := (jarr j "ups").toList.map fun u => if jhas u "mode" then jstr u "mode" else "both"
+  let sim := simulate cfg fs0 ups modes
+  let stepsJ := sim.steps.map fun s =>
+    Json.mkObj [("mid", jstrs s.mid.members), ("midOrder", jstrs s.midOrder),
+      ("post", jstrs s.post.members), ("postOrder", jstrs s.postOrder)]
+  let model := Json.mkObj [("root", Json.str sim.root), ("init", jstrs sim.init.members),
+    ("order0", jstrs sim.order0), ("steps", Json.arr stepsJ.toArray)]
+  let domain := HL.Spec.Rebuild.fsOk fs0 && fs0.length ≥ 2 && fs0.length ≤ 5 && ups.length ≤ 8 &&
+    ups.all (fun u => u.1 ≠ "" && HL.Spec.Rebuild.contribOk u.2)
+  let root := jstr impl "root"
+  let memView := fun (ms : List String) => ({ (parseView Json.null) with members := ms } : View)
+  let mut why : List String := []
+  if root == HL.Spec.Rebuild.rootOf fs0 then
+    if !HL.Spec.Rebuild.membersOk (HL.Spec.Rebuild.rebuildAt cfg.limit root fs0) (memView (parseStrs impl "init")) then
+      why := why ++ ["after Initialize: the workspace's files are not the files reachable from the root"]
+  let mut i := 0
+  for is in implSteps do
+    match sim.steps[i]? with
+    | none => pure ()
+    | some s =>
+      if s.quiet && HL.Spec.Rebuild.rootOf s.fs == root then
+        if !HL.Spec.Rebuild.membersOk (HL.Spec.Rebuild.rebuildAt cfg.limit root s.fs) (memView (parseStrs is "post")) then
+          why := why ++ [s!"step {i}: the workspace's files are not the files reachable from the root"]
+    i := i + 1
+  return Json.mkObj [("model", model), ("spec_ok", why.isEmpty), ("in_domain", domain),
+    ("known", Json.arr #[]), ("why", String.intercalate "; " why)]
+
 def contrib (j : Json) : Json :=
   let n := jstr j "n"
   let incs := (jarr j "inc").toList.map strOf
@@ -245,6 +309,7 @@ def handle (op : String) (j : Json) : Option Json :=
   match op with
   | "c12.run" => some (run j)
   | "c12.contrib" => some (contrib j)
+  | "c10.ws" => some (runMembers j)
   | _ => none
 
 end HL.Driver.C12
